@@ -396,6 +396,46 @@ def long_compressible_inputs(rng, tier):
     return out
 
 
+# ---- siblings that collide under cheap fingerprints (seeded C08-8: a memo of recent results keyed by (length, FxHash)) ----
+FX_K = 0x517cc1b727220a95
+M64 = (1 << 64) - 1
+
+
+def _rotl5(x):
+    return ((x << 5) | (x >> 59)) & M64
+
+
+def fxhash64(b):
+    """rustc_hash::FxHasher::write on a 64-bit little-endian target (8-byte words, then 4, 2, 1 bytes)."""
+    h = 0
+    i = 0
+    for width in (8, 4, 2, 1):
+        while len(b) - i >= width and (width == 8 or True):
+            h = ((_rotl5(h) ^ int.from_bytes(b[i:i + width], "little")) * FX_K) & M64
+            i += width
+            if width != 8:
+                break
+    return h
+
+
+def fingerprint_siblings(rng, n):
+    """-> (x, y): two different inputs of the same length n >= 16 with the same FxHash64, the same last bytes, and
+    - by construction of y from x - everything equal except the first 16 bytes.  A cache of compression results keyed
+    by length + such a fingerprint hands the first one's stream to the second."""
+    x = bytearray(rand_bytes(rng, n, rng.choice([4, 256])))
+    y = bytearray(x)
+    w0 = int.from_bytes(x[0:8], "little")
+    w1 = int.from_bytes(x[8:16], "little")
+    w0b = w0 ^ (1 << rng.randrange(64)) ^ rng.getrandbits(64) & 0xFF00
+    if w0b == w0:
+        w0b ^= 1
+    w1b = w1 ^ _rotl5((w0 * FX_K) & M64) ^ _rotl5((w0b * FX_K) & M64)
+    y[0:8] = w0b.to_bytes(8, "little")
+    y[8:16] = w1b.to_bytes(8, "little")
+    assert fxhash64(bytes(x)) == fxhash64(bytes(y)) and x != y
+    return bytes(x), bytes(y)
+
+
 def size_boundary_inputs(kind, rng):
     b = rng.getrandbits(8)
     out = [((1 << 24) - 1, bytes([b])), ((1 << 24) - 2, bytes([b, b ^ 0x55, 7]))]
@@ -475,6 +515,11 @@ def random_tokens(rng, ver, ntok, maxout):
 # ------------------------------------------------------------------------------------ shared check machinery
 from common import PropertyCheck, Case, NPROC  # noqa: E402
 NPROC_SHARDS = NPROC
+
+
+def case_data_token(line):
+    """the input of a compress case: the last token (lz10p / lz13p carry a prelude before it)"""
+    return line.split(" ")[-1]
 
 
 def parse_compress_out(out):
@@ -563,6 +608,18 @@ def compress_inputs(rng, tier, kind, hdr_flag_small):
         for n, pat in ((1 << 24, bytes([rng.getrandbits(8)])), ((1 << 24) + 5, b"\x41\x42")):
             cases.append(Case("lz10c 1 %s" % ptok(n, pat), "size-limit-F21"))
             cases.append(Case("lz10f 1 %s" % ptok(n, pat), "size-limit-F21"))
+    # state across calls: pairs of different same-length inputs that collide under the crate's own cheap hasher (FxHash64),
+    # compressed one right after the other in the same process (x, y, x): a cache of recent results keyed by length and such
+    # a fingerprint returns the wrong stream for the second one (seeded C08-8)
+    for _ in range(6 if tier == "quick" else 40):
+        x, y = fingerprint_siblings(rng, rng.choice([16, 17, 24, 40, 100, 300]))
+        # as ONE replayable case each way: kind lz10p / lz13p = compress the prelude first, then the input ...
+        pk = kind[:-1] + "p"
+        cases.append(Case("%s %s %s %s" % (pk, hdr_flag_small(len(y)), hexb(x), hexb(y)), "fingerprint-collision-siblings"))
+        cases.append(Case("%s %s %s %s" % (pk, hdr_flag_small(len(x)), hexb(y), hexb(x)), "fingerprint-collision-siblings"))
+        # ... and as consecutive ordinary cases of the same process
+        for d in (x, y, x):
+            add(d, "fingerprint-collision-siblings")
     # the same entry points through the enum CompressionFormat (kind lz10f / lz13f): a slice of the family
     fkind = kind[:-1] + "f"
     for b in small_alphabet_exhaustive((0x61, 0x62), 7 if tier == "quick" else 10):
@@ -668,7 +725,7 @@ class LZCheckMixin:
             model_out = " ".join(model_out.split(" ")[:2])
             if impl_out == model_out:
                 return True
-        if kind in ("lz13c", "lz13f") and impl_out.startswith("ok B13") and model_out.startswith("ok B13"):
+        if kind in ("lz13c", "lz13f", "lz13p") and impl_out.startswith("ok B13") and model_out.startswith("ok B13"):
             mask = lambda o: o[:6] + "......" + o[12:]
             if mask(impl_out) == mask(model_out):
                 if flag == "2":
